@@ -5,6 +5,7 @@ import field_checks
 import pass_checks
 import tagged_checks
 import dis_checks
+import thr_checks
 
 CORE_A = ["Model/Base.v", "Model/Dispatch.v", "Model/Routing.v", "Model/DispLane.v", "Gen/DispatchSrc.v", "Gen/ConvSrc.v",
           "Proofs/DispatchProofs.v", "Proofs/RoutingProofs.v", "Proofs/SrcObligations.v"]
@@ -60,6 +61,10 @@ def _c12(v, b, tier):
     dis_checks.check_c12(v, b.t1_summary, 40 * SIZES[tier], [1, 7] if tier == "quick" else [1, 2, 3, 5, 7, 11, 13, 17])
 
 
+def _c19(v, b, tier):
+    thr_checks.check_c19(v, b.t1_summary, 40 * SIZES[tier], 6 * SIZES[tier])
+
+
 def _c10(v, b, tier):
     tpl_checks.check_c10(v, b.t1_summary, 60 * SIZES[tier], 5)
 
@@ -99,6 +104,13 @@ REGISTRY = {
                     "12% init=False, 20% Literal-typed, 30% of unions with a shared Literal `kind` attribute, 15% with None; every rotation plus two "
                     "random permutations of the members; two instances per member; the whole battery re-run in subprocesses under other PYTHONHASHSEEDs; "
                     "non-trivial = >= 2 members; distinct = (union, order)"},
+    "C19": {"props_file": "Props/C19.v", "files": ["Model/Base.v", "Model/Threads.v", "Gen/ThreadSrc.v", "Proofs/ThreadsProofs.v", "Props/C19.v"],
+            "run": _c19, "t1_sections": ["threads"],
+            "rule": "forced schedules: 2-3 threads, each with 1-2 first-use requests over a cyclic and a diamond class graph, random schedules of 4-14 "
+                    "macro-steps (a step runs one thread to its next parking point: a hook factory on a marker field type blocks it mid-generation), "
+                    "both directions; every structure-direction schedule is run twice, with the working set as in the source and with it rebound to a "
+                    "shared object (what-if), and compared with the model under the matching scope; plus free-running stress rounds (12 threads x 2 "
+                    "object graphs on one fresh converter) against a sequential reference; non-trivial = schedule of >= 3 steps"},
     "C10": {"props_file": "Props/C10.v", "files": CORE_TPL + ["Props/C10.v"], "run": _c10, "rule": RULE_TPL, "t1_sections": ["gen"]},
     "C07": {"props_file": "Props/C07.v", "files": CORE_A + ["Props/C07.v"], "run": _c07, "rule": RULE_DISP},
     "C08": {"props_file": "Props/C08.v", "files": CORE_A + ["Props/C08.v"], "run": _c08, "rule": RULE_DISP},
